@@ -77,18 +77,23 @@ def build():
     W['f2'] = Comp('f', 7)
     W['g'] = Comp('g', 8)
     W['c'] = Components('c')
+    # the objects the queries are made for live as long as the world: repeated
+    # queries then meet the lookup caches filled by earlier ones
+    for r in ('R0', 'R1'):
+        W['ob' + r] = implementer(W[r])(type('Ob', (), {'nm': r}))()
     return W
 
 
 def all_ops(cfg):
     ops = []
     comps = cfg.get('comps', ('u', 'u2', 'v', 'h', 'h2', 'w'))
+    provs = cfg.get('provided', ('P0', 'P1'))
     for comp in comps:
-        for p in ('P0', 'P1'):
+        for p in provs:
             for n in ('', 'n'):
                 ops.append(('regU', comp, p, n))
                 ops.append(('unregU', comp, p, n))
-    for p in ('P0', 'P1'):
+    for p in provs:
         for n in ('', 'n'):
             ops.append(('unregU', None, p, n))
     # calls that are refused (the name is not a string) change nothing
@@ -110,6 +115,10 @@ def all_ops(cfg):
         ops.append(('unregH', None, r))
     ops.append(('init',))
     ops.append(('rebuild',))
+    # what a persistence layer does when it loads the object's state again: the
+    # registration table is a new, equal object (the library's own tests do
+    # this), which makes Components rebuild its volatile bookkeeping
+    ops.append(('reload',))
     return ops
 
 
@@ -137,6 +146,9 @@ def step(W, M, op):
         d = c.rebuildUtilityRegistryFromLocalCache(rebuild=True)
         if d['needed_registered'] or d['needed_subscribed']:
             return ('probe-found-something-to-repair', d)
+        exp_events = []
+    elif t == 'reload':
+        c._utility_registrations = dict(c._utility_registrations)
         exp_events = []
     elif t in ('regU-badname', 'regA-badname'):
         try:
@@ -305,8 +317,7 @@ def observe_check(W, M):
         if a != b:
             return ('getAllUtilitiesRegisteredFor', p, a, b)
     for r in ('R0', 'R1'):
-        Ob = implementer(W[r])(type('Ob', (), {'nm': r}))
-        ob = Ob()
+        ob = W['ob' + r]
         if c.queryAdapter(ob, W['P0']) != ad.queryAdapter(ob, W['P0']):
             return ('queryAdapter', r)
         if c.queryMultiAdapter((ob,), W['P0']) != ad.queryMultiAdapter((ob,), W['P0']):
@@ -334,6 +345,9 @@ def hidden(W):
     c = W['c']
     cache = []
     urc = c._v_utility_registrations_cache
+    if urc is not None and (urc._utilities is not c.utilities or
+                            urc._utility_registrations is not c._utility_registrations):
+        cache.append(('to-be-rebuilt', '', ()))
     if urc is not None:
         for prov, counter in urc._cache.items():
             if hasattr(counter, '_data'):
@@ -413,6 +427,9 @@ def run(ctx):
         plans = [(dict(), 2, 'full'),
                  (dict(comps=('u', 'u2', 'h', 'h2'), facs=('f', 'f2'), sub_provided=('P0',)), 3, 'equal-components')]
     plans += [(dict(c, warm=True), d, l + '+queries-after-every-call') for c, d, l in plans]
+    # utilities only, deeper: one component under several names, reloads
+    plans.append((dict(comps=('u', 'u2'), facs=(), provided=('P0',)), 6 if quick else 8, 'utilities-one-interface'))
+    plans.append((dict(comps=('u', 'u2', 'h'), facs=()), 4 if quick else 5, 'utilities'))
     for impl in ('c', 'py'):
         for cfg, depth, label in plans:
             r = bfs(ctx, impl, 'expand', cfg, int(ctx.opts.get('depth', depth)), label=label)
